@@ -4501,6 +4501,7 @@ class Pack:
         self._basename = basename
         self.object_format = object_format
         self._data = None
+        self._data_checked = False
         self._idx = None
         self._bitmap = None
         self._idx_path = self._basename + ".idx"
@@ -4566,7 +4567,18 @@ class Pack:
                 self._data = self._data_load()
             except FileNotFoundError as exc:
                 raise PackFileDisappeared(self) from exc
-            self.check_length_and_checksum()
+            self._data_checked = False
+        if not self._data_checked:
+            # Remember a check that passed, not merely that the data was
+            # loaded: after a check that failed, the next access has to fail
+            # again rather than use the pack unchecked. (The flag is set
+            # first because the check itself goes through this property.)
+            self._data_checked = True
+            try:
+                self.check_length_and_checksum()
+            except BaseException:
+                self._data_checked = False
+                raise
         return self._data
 
     @property
